@@ -92,7 +92,11 @@ func checkC09(r *Result) {
 		}}
 		for _, ret := range SuccessReturns(cr) {
 			p := le.Eval(tm.Of(ResultOf(ret, 0)))
-			r.check(p.String() == "power^1 * reports^1 * reward^1 * totalPower^-1", "LIN-PART", "x/oracle/keeper.CalculateRewardAmount # power*reports/totalPower*reward", pos(ret.Pos()), p.String())
+			// the reporter's part is (power/totalPower)*reward in today's code: the quotient's rounding (< 10^-18) is
+			// scaled by the reward, and the payout loop hands reward - distributed to the last reporter (REMAINDER), so
+			// the parts still sum to the reward exactly. The order of operations is therefore not part of this rule;
+			// inside a reporter (LIN-SPLIT) there is no remainder step and the order is.
+			r.check(p.plain() == "power^1 * reports^1 * reward^1 * totalPower^-1", "LIN-PART", "x/oracle/keeper.CalculateRewardAmount # power*reports/totalPower*reward", pos(ret.Pos()), p.String())
 		}
 	}
 	// ---------------- AllocateRewards
